@@ -111,8 +111,8 @@ theorem decScalar_total (e : Endian) (p : Prim) (data : Bytes) (pos : Nat) :
     have hl : (slice data pos p.size).length = p.size := slice_length data pos p.size (by omega)
     simp [unpack, hl, bind, Except.bind, pure, Except.pure]
 
-theorem decSizer_le_guard (e : Endian) (p : Prim) (data : Bytes) (pos : Nat) (c sz : Nat)
-    (h : decSizer e p data pos = .ok (c, sz)) : c ≤ arrayGuard := by
+theorem decSizer_le_guard (e : Endian) (p : Prim) (shift : Nat) (data : Bytes) (pos : Nat) (c sz : Nat)
+    (h : decSizer e p shift data pos = .ok (c, sz)) : c ≤ arrayGuard := by
   unfold decSizer at h
   cases hd : decScalar e p data pos with
   | error x => simp [hd, bind, Except.bind] at h
